@@ -367,6 +367,8 @@ Pointset_Powerset<PSET>::fold_space_dimensions(const Variables_Set& vars,
            s_end = x.sequence.end(); si != s_end; ++si) {
       si->pointset().fold_space_dimensions(vars, dest);
     }
+    // Folding can make previously incomparable disjuncts comparable.
+    x.reduced = false;
   }
   x.space_dim -= num_folded;
   PPL_ASSERT_HEAVY(x.OK());
